@@ -90,6 +90,7 @@ type v2run struct {
 	sendsAfterBad atomic.Int32
 	badSeen  atomic.Bool
 	relPanic atomic.Bool
+	rounds   atomic.Int64
 }
 
 func (r *v2run) emit(o any) { r.log = append(r.log, o) }
@@ -112,6 +113,9 @@ func (r *v2run) hook(ev priority.VerifEvent) {
 	}
 	if ev.Ev == "Exit" {
 		r.exited.Store(true)
+	}
+	if ev.Ev == "RoundEnd" {
+		r.rounds.Add(1)
 	}
 	if r.free.Load() {
 		return
@@ -189,14 +193,15 @@ func (r *v2run) next() (priority.VerifEvent, bool) {
 }
 
 func (r *v2run) await() (priority.VerifEvent, bool) {
-	for try := 0; try < 6; try++ {
+	for d := 2 * time.Nanosecond; d <= 64*time.Microsecond; d *= 2 { // idle delay / interrupt period may lie between two hooks
 		synctest.Wait()
 		if ev, ok := r.poll(); ok {
 			return ev, true
 		}
-		time.Sleep(2 * time.Nanosecond)
+		time.Sleep(d)
 	}
-	return priority.VerifEvent{}, false
+	synctest.Wait()
+	return r.poll()
 }
 
 // poll takes a scheduler event that is waiting to be delivered (the scheduler reached its next hook)
@@ -333,7 +338,7 @@ func (r *v2run) topUp() bool {
 // release nothing, until the scheduler stops handing out items (virtual-time quiescence).
 func (r *v2run) stall() {
 	idle := 0
-	for idle < 8 && len(r.held) <= 3*int(r.cfg.H)+8 { // far beyond H already decides C01; do not feed a runaway
+	for idle < 3 && len(r.held) <= 3*int(r.cfg.H)+8 { // far beyond H already decides C01; do not feed a runaway
 		progressed := r.topUp()
 		synctest.Wait()
 		for {
@@ -347,7 +352,7 @@ func (r *v2run) stall() {
 			idle = 0
 		} else {
 			idle++
-			time.Sleep(3 * time.Nanosecond)
+			idleWait(&r.rounds)
 		}
 	}
 	r.emit(obs{E: "Q", Held: r.heldCounts()})
@@ -382,7 +387,7 @@ func (r *v2run) stallGated() {
 // alone: continuation for C06. Bring the discipline to "nothing in flight" (release and drain everything that
 // is already inside), then give data to ONE priority only and never release: it must be granted all H handlers.
 func (r *v2run) alone(pick int) {
-	for quiet := 0; quiet < 6; {
+	for quiet := 0; quiet < 3; {
 		for len(r.held) > 0 {
 			r.release(r.held[0])
 		}
@@ -393,7 +398,7 @@ func (r *v2run) alone(pick int) {
 			continue
 		}
 		quiet++
-		time.Sleep(3 * time.Nanosecond)
+		idleWait(&r.rounds)
 	}
 	var open []uint
 	for _, p := range r.cfg.Prios {
@@ -406,7 +411,7 @@ func (r *v2run) alone(pick int) {
 	}
 	p := open[pick%len(open)]
 	r.emit(obs{E: "A", P: p})
-	for idle := 0; idle < 8 && len(r.held) <= 3*int(r.cfg.H)+8; {
+	for idle := 0; idle < 3 && len(r.held) <= 3*int(r.cfg.H)+8; {
 		progressed := false
 		if r.cfg.incap(p) == 0 {
 			if !r.parked[p].Load() {
@@ -433,7 +438,7 @@ func (r *v2run) alone(pick int) {
 			idle = 0
 		} else {
 			idle++
-			time.Sleep(3 * time.Nanosecond)
+			idleWait(&r.rounds)
 		}
 	}
 	note := ""
@@ -455,7 +460,7 @@ func (r *v2run) finish() {
 	}
 	closeIdle()
 	outClosed := false
-	for round := 0; round < 4000 && !outClosed; round++ {
+	for round := 0; round < 400 && !outClosed; round++ {
 		for len(r.held) > 0 {
 			r.release(r.held[0])
 		}
@@ -474,7 +479,7 @@ func (r *v2run) finish() {
 			progressed = true
 		}
 		if !progressed && !outClosed {
-			time.Sleep(3 * time.Nanosecond)
+			idleWait(&r.rounds)
 		}
 	}
 	defer close(r.stop) // writers that never got through are released only when the bubble is left
